@@ -632,3 +632,30 @@ class LineCov:
             hit += len(got)
         return {"functions": out, "executable_lines": tot, "executed": hit,
                 "note": "source lines of the modelled functions executed in-process by this run's correspondence and oracle cases"}
+
+
+def replay_by_rerun(pid, payload):
+    """judged replay for scenario checks whose inputs are real directory histories: the check is run again with the recorded seed and
+    tier (every random choice derives from the seed, so the same scenarios are rebuilt); exit status 1 if a violation is reported again"""
+    seed = int(payload.get("seed", 0) or 0)
+    tier = payload.get("tier", "quick")
+    out = tempfile.mkdtemp(prefix="pffreplay.")
+    env = dict(os.environ, VERIF_SEED=str(seed), PFF_EVIDENCE_DIR=os.path.join(out, "ev"), PFF_REPLAY_DIR=os.path.join(out, "rp"))
+    try:
+        r = subprocess.run([os.path.join(VERIF, "check"), pid, "--tier", tier], env=env, stdout=subprocess.PIPE, stderr=subprocess.STDOUT, text=True)
+        lines = [l for l in r.stdout.splitlines() if "tier=" in l or l.startswith("VIOLATION") or l.startswith("OK ") or l.startswith("KNOWN-FINDING")]
+        for l in lines[:8]:
+            say(l.replace(os.path.join(out, "rp"), "<scratch>"))
+        first = None
+        rp = os.path.join(out, "rp")
+        if os.path.isdir(rp):
+            fs = sorted(os.listdir(rp))
+            if fs:
+                first = json.load(open(os.path.join(rp, fs[0])))
+        if first is not None:
+            say("reproduced: %s" % str(first.get("what") or first.get("kind"))[:300])
+        else:
+            say("the property holds on the recorded scenarios now (seed %d, tier %s)" % (seed, tier))
+        return 1 if r.returncode == 1 else (0 if r.returncode == 0 else 2)
+    finally:
+        shutil.rmtree(out, ignore_errors=True)
